@@ -613,8 +613,8 @@ class Plan:
             else:
                 start = lo if kind == "at_min" else (max(lo, -n) if kind == "holes" else hi - 2 * n)
                 start = max(lo, min(start, hi - 2 * n))
-                pool = range(start, start + 2 * n + 1)
-                reals = sorted(rng.sample(pool, n))
+                pool = range(start, min(hi, start + 2 * n) + 1)
+                reals = sorted(rng.sample(pool, min(n, len(pool) - 1)))
                 if kind == "at_max":
                     reals[-1] = hi
                 if kind == "at_min":
